@@ -126,10 +126,10 @@ def lines_leg(ctx, parent, corr_broken):
             continue
         # ---- round 11 (F47b): the existing file is write-only for the tool ----
         unreadable = "unreadable=true" in notes
-        if r["case"].startswith("unreadable-") and not unreadable:
+        if r["case"].startswith("unreadable-") and not unreadable and srw_probe != -1:
             corr_broken.append("lines scenario %s: the file could not be made unreadable for the tool (%s)" % (r["case"], inject))
             continue
-        if "unreadable-not-injected" in notes:
+        if "unreadable-not-injected" in notes and srw_probe != -1:
             corr_broken.append("lines scenario %s: the file could not be made unreadable for the tool (%s)" % (r["case"], inject))
         if unreadable:
             nonempty = r["case"] != "unreadable-empty" and "prelen=0" not in notes
@@ -188,8 +188,10 @@ def lines_leg(ctx, parent, corr_broken):
                          % ("the shape of F47 alone (F47b reverted)" if srw == 0 else "not the accepted shape"))
         ctx.violation(key, what, replay)
     ctx.corr["lines"] = rows
-    if len([r for r in rows if not r["case"].startswith("gen-")]) < 10:
-        corr_broken.append("lines leg: only %d of 10 fixed scenarios reported" % len(rows))
+    nfixed = 7 if srw_probe == -1 else 10   # the three unreadable-file scenarios are left out where the fault cannot be injected
+    if len([r for r in rows if not r["case"].startswith("gen-")]) < nfixed:
+        corr_broken.append("lines leg: only %d of %d fixed scenarios reported"
+                           % (len([r for r in rows if not r["case"].startswith("gen-")]), nfixed))
     gen = [r for r in rows if r["case"].startswith("gen-")]
     ctx.corr["lines_generated"] = {"scripts": len(gen), "torn_initial_file": sum(1 for r in gen if "torn=true" in _unhex(r["notes"]).decode("latin1")),
                                    "without_own_record": sum(1 for r in gen if r["owns"] != "true"),
